@@ -241,6 +241,8 @@ func c04Case(t *core.T) {
 		return
 	}
 	// routes into other instances
+	internalWanted := uint32(0)
+	internalKnown := map[string]bool{}
 	routes := t.R.Range(1, 4)
 	var shape []string
 	for r := 0; r < routes && !t.Failed(); r++ {
@@ -279,9 +281,15 @@ func c04Case(t *core.T) {
 			if t.R.Chance(30) {
 				hint = uint32(t.R.Intn(len(issued) + 1))
 			}
+			// in a third of the restores the client also asks for addresses of the internal (change) branch
+			intHint := uint32(0)
+			if t.R.Chance(35) {
+				intHint = uint32(t.R.Range(1, 4))
+			}
 			t.Eval(1)
-			sum, err := inst.w.W.ImportWalletWithMnemonic(&keystore.WalletParams{Mnemonic: mnemonic, PrivatePassphrase: []byte(pass), ExternalIndex: hint, AddressGapLimit: 20})
-			logf("%s: ImportWalletWithMnemonic(hint %d) -> %v", name, hint, err)
+			sum, err := inst.w.W.ImportWalletWithMnemonic(&keystore.WalletParams{Mnemonic: mnemonic, PrivatePassphrase: []byte(pass), ExternalIndex: hint, InternalIndex: intHint, AddressGapLimit: 20})
+			logf("%s: ImportWalletWithMnemonic(hint %d, internal %d) -> %v", name, hint, intHint, err)
+			internalWanted = intHint
 			if err != nil {
 				fail("import-mnemonic-failed", err.Error())
 				return
@@ -304,6 +312,23 @@ func c04Case(t *core.T) {
 		if err != nil {
 			fail("usewallet-failed", fmt.Sprintf("%s: %v", cur.name, err))
 			return
+		}
+		if route == 2 && internalWanted > 0 && useRef {
+			// the internal-branch addresses the restore created: independent derivation m/44'/coin'/1'/1/i
+			for i := uint32(0); i < internalWanted; i++ {
+				t.Eval(1)
+				k, ok := ref.InternalKey(i)
+				if !ok {
+					continue
+				}
+				h := sha256.Sum256(redeemScript1of1(k.Pub[:]))
+				if !got[h] {
+					fail("internal-address-not-function-of-mnemonic", fmt.Sprintf("%s: restore with internal index %d: the address of m/44'/coin'/1'/1/%d is not among the wallet's addresses", cur.name, internalWanted, i))
+					return
+				}
+			}
+			t.Count("restores_with_internal_branch_addresses", 1)
+			internalKnown[cur.dir] = true
 		}
 		known := len(issued)
 		if route == 0 {
